@@ -24,6 +24,9 @@ HYDRO_POOLS = [
     ["density", "velocity_x", "velocity_y", "temperature", "scalar_01", "scalar_02"],
     ["velocity_x", "velocity_y", "velocity_z", "oxygen", "flux_x"],
     ["density", "velocity_x", "velocity_y", "velocity_z", "radiative_energy_1", "pressure", "taxi"],
+    # component names with further letters 'x' after (or before) the component letter
+    ["density", "mix_x_ext", "mix_y_ext", "mix_z_ext", "velocity_x_max", "velocity_y_max", "velocity_z_max", "pressure"],
+    ["density", "flux_x_axial", "flux_y_axial", "flux_z_axial", "extra_x", "extra_y", "extra_z", "xenon_x_mix", "xenon_y_mix", "xenon_z_mix"],
 ]
 RT_POOLS = [["photon_density_1", "photon_flux_1_x", "photon_flux_1_y", "photon_flux_1_z"], ["photon_density_1", "photon_density_2"],
             ["rt_a", "rt_b", "rt_c"]]
